@@ -189,11 +189,13 @@ RC = "react::react_cache::verif_h::"
 RC_SRC = ["src/react/react_cache.rs", "src/react/utils.rs", "src/react/commands.rs"]
 
 
-def k2(id, harness, props, functions, src, bounds, claim, tiers=("quick", "thorough"), expect="pass", witness=None):
+def k2(id, harness, props, functions, src, bounds, claim, tiers=("quick", "thorough"), expect="pass", witness=None, unwindset=None):
     d = dict(id=id, engine="k2", harness=harness, props=list(props), expect=expect, functions=functions, src=src,
              bounds=bounds, claim=claim, tiers=list(tiers))
     if witness:
         d["witness"] = witness
+    if unwindset:
+        d["unwindset"] = unwindset
     return d
 
 
@@ -500,6 +502,16 @@ OBLIGATIONS += [
        "no mutation reaction is scheduled for an entity that no longer exists when the trigger is applied; a live entity gets exactly the type-wide mutation reactor",
        witness=[["dead_target", "mutation"]]),
 ]
+
+OBLIGATIONS.append(k2("once.wrapper", _k2h("react::react_commands", "once_reactor_runs_once_then_vanishes"), ["C15"],
+                      ["ReactCommands::once", "RawCallbackSystem::run_with_cleanup", "ReactWorldExt::react", "ReactCommands::revoke", "revoke_reactor",
+                       "SystemCommandStorage::take", "SystemCommandCallback::run"],
+                      ["src/react/react_commands.rs", "src/react/extensions.rs", "src/ecs/callbacks.rs", "src/react/react_cache.rs"],
+                      "one-trigger bundle (broadcast); the registration command is set aside and the table written as registration leaves it, with a "
+                      "neighbour reactor; the wrapper is invoked twice; values dropped by the despawn are leaked by the model; the token walk is bounded to 1 entry",
+                      "the wrapper runs the user's reactor on the first invocation only, then its entity is gone and none of its triggers remains "
+                      "registered (the neighbour's does); a second invocation does nothing",
+                      unwindset={"react::react_commands::revoke_reactor": 2}))
 
 # K1 obligations superseded by lighter K2 ones or too heavy for the quick tier (measured): restrict to thorough / drop
 # Dropped after measurement (they do not finish within the thorough caps, 14 GB / 1500 s, so keeping them would make a
